@@ -134,6 +134,14 @@ impl EvaluatedDecisionTable {
     match self.default_output_values.len() {
       0 => value_null!("no rules matched, no output value defined"),
       1 => self.default_output_values[0].clone(),
+      n if n == self.component_names.len() => {
+        // every output clause defines a default output entry: the result is composed like a rule's result
+        let mut result: FeelContext = Default::default();
+        for (name, value) in self.component_names.iter().zip(self.default_output_values.iter()) {
+          result.set_entry(name, value.clone());
+        }
+        Value::Context(result)
+      }
       _ => value_null!(),
     }
   }
